@@ -117,6 +117,19 @@ def body_lines(n, shape):
         inner = n - 8
         return (["\twhile (x)", "\t{", "\t\tif (x)", "\t\t{"] + ["\t\t\tx = %d;" % i for i in range(inner)]
                 + ["\t\t}", "\t\telse", "\t\t\tx = 0;", "\t}"])
+    if shape in ("chain2", "chain3", "elseif-chain", "chain-in-block"):
+        # nested brace-less control structures that all end on the same instruction, each one tab deeper
+        if shape == "chain2":
+            chain = ["\twhile (x)", "\t\tif (x)", "\t\t\tx = 1;"]
+        elif shape == "chain3":
+            chain = ["\twhile (x)", "\t\tif (x)", "\t\t\twhile (x)", "\t\t\t\tx = 1;"]
+        elif shape == "elseif-chain":
+            chain = ["\tif (x)", "\t\tx = 2;", "\telse if (x)", "\t\twhile (x)", "\t\t\tx = 1;"]
+        else:
+            chain = ["\twhile (x)", "\t{", "\t\tif (x)", "\t\t\twhile (x)", "\t\t\t\tx = 1;", "\t}"]
+        k = n - len(chain)
+        half = k // 2
+        return ["\tx = %d;" % i for i in range(half)] + chain + ["\tx = %d;" % i for i in range(k - half)]
     if shape == "braceless":
         k = (n - 1) // 2
         out = []
@@ -134,7 +147,7 @@ def count_cases():
     out = []
     # ---- 25 lines: n in 22..31, shapes x position of the function among others
     for n in range(22, 32):
-        for shape in ("flat", "decl", "nested", "deep", "braceless"):
+        for shape in ("flat", "decl", "nested", "deep", "braceless", "chain2", "chain3", "elseif-chain", "chain-in-block"):
             for idx, total in ((0, 1), (1, 3), (4, 5)):
                 funcs = [small_func(i) for i in range(total)]
                 funcs[idx] = "int\tf%d(int x)\n{\n" % idx + "".join(l + "\n" for l in body_lines(n, shape)) + "}\n"
@@ -156,10 +169,21 @@ def count_cases():
     # ---- 4 parameters: p in 1..10
     types = ["int ", "char *", "unsigned int ", "char **", "long ", "const char *", "t_list *", "size_t ", "int ", "char "]
     for p in range(1, 11):
-        for kind in ("definition", "second-function", "prototype-in-header"):
-            params = ", ".join(types[i] + "p%d" % i for i in range(p))
-            if kind == "definition":
+        for kind in ("definition", "second-function", "prototype-in-header", "void-pointer-first", "void-pointer-last", "static-void-pp-first",
+                     "prototype-void-pointer-first"):
+            tl = list(types)
+            if "void-pointer-first" in kind:
+                tl[0] = "void *"
+            if kind == "static-void-pp-first":
+                tl[0] = "void **"
+            if kind == "void-pointer-last":
+                tl[p - 1] = "void *"
+            params = ", ".join(tl[i] + "p%d" % i for i in range(p))
+            if kind in ("definition", "void-pointer-first", "void-pointer-last"):
                 src = HDR + "\n" + "int\tf(%s)\n{\n\treturn (0);\n}\n" % params
+                name = "a.c"
+            elif kind == "static-void-pp-first":
+                src = HDR + "\n" + "static int\tf(%s)\n{\n\treturn (0);\n}\n" % params
                 name = "a.c"
             elif kind == "second-function":
                 src = HDR + "\n" + small_func(0) + "\n" + "int\tf(%s)\n{\n\treturn (0);\n}\n" % params
@@ -281,7 +305,7 @@ def run(run, tier, seed, replay=None):
             k = sum(1 for d in r["diags"] if d[0] == code)
             if k != n - L:
                 found |= run.violation("limit-boundary", dict(data, code=code, count=k, expected_count=n - L))
-    run.count("counters: body lines 22..31 x 5 shapes x 3 positions; functions 2..11 x 3 forms; parameters 1..10 x 3 forms; variables 2..11 x 3 forms",
+    run.count("counters: body lines 22..31 x 9 shapes (incl. chains of nested brace-less structures) x 3 positions; functions 2..11 x 3 forms; parameters 1..10 x 7 forms (void pointer first/last, static, prototype); variables 2..11 x 3 forms",
               len(cc), len(cc))
     if wc:
         run.sample({"context": wc[len(wc) // 2][0], "width": wc[len(wc) // 2][4], "line": wc[len(wc) // 2][2].split("\n")[wc[len(wc) // 2][3] - 1]})
